@@ -159,6 +159,14 @@ def run(ctx):
         later = [tt["sp"] for ab_, tt in lb.calls() if (callee(tt) or "").endswith(("Automerge::apply_changes", "Automerge::apply_changes_log_patches", "Automerge::load_incremental", "BatchApply::apply")) and lb.can_reach(bi, ab_) and ab_ != bi]
         ctx.ob("V2", k + "|runs after every chunk was applied", not later, t["sp"], "no change is applied after the migration" if not later else
                "changes are applied (%s) after the migration ran: strings they contain stay scalars, and positions recorded for the conversion may be stale" % later[0])
+    # where a converted list element is: the position of *that op* at the current heads
+    seqs = [(bi, st) for bi, blk in enumerate(cb.blocks) if not blk.get("cleanup") for st in blk["st"] if st["rv"]["k"] == "Agg" and st["rv"].get("adt") == "automerge::types::Prop" and st["rv"].get("variant") == "Seq"]
+    ctx.floor("Prop::Seq constructions in convert_scalar_strings_to_text", len(seqs), 1)
+    for k, (bi, st) in util.ordinal_keys(seqs, lambda it: "convert|list position"):
+        pv = cb.provenance(st["rv"]["o"][0], through_calls=True)
+        ok = any((norm_fn(c) or "").endswith("OpSet::seek_list_opid") for c in pv.callees()) and any(".index" in "".join(pr) for _, pr in pv.places)
+        ctx.ob("V3", k, ok, st["sp"], "seek_list_opid(obj, op.id, ..).index" if ok else
+               "the list index of a converted string is not looked up for that op (seek_list_opid): a count kept while scanning is wrong as soon as an earlier element was overwritten in place, and the text object replaces another element")
     # ---------------- V4: rewrite
     puts = [(bi, t) for bi, t in cb.calls() if (callee(t) or "").endswith("::put_object")]
     spl = [(bi, t) for bi, t in cb.calls() if (callee(t) or "").endswith("::splice_text")]
